@@ -556,7 +556,7 @@ pub fn run(o: &Opts, rec: &mut Recorder) {
         exec(&l, rec);
     }
     let mut r = Rng::new(o.seed);
-    let n = o.n(6000, 200_000);
+    let n = o.n(6000, 1_000_000);
     for i in 0..n {
         let small = r.chance(1, 2);
         let a = gen_name(&mut r, small);
